@@ -11,11 +11,11 @@ def parse_eval(path):
         return out
     for l in open(path):
         l = l.strip()
-        m = re.match(r'(?:\S+ )?([CRST]\d\d-\d) .*detected_by:(.*)$', l)
+        m = re.match(r'(?:\S+ )?([CRSTUVW]\d\d-\d) .*detected_by:(.*)$', l)
         if m:
             out[m.group(1)] = m.group(2).strip()
             continue
-        m = re.match(r'(?:\S+ )?([CRST]\d\d-\d) (APPLY|BUILD)', l)
+        m = re.match(r'(?:\S+ )?([CRSTUVW]\d\d-\d) (APPLY|BUILD)', l)
         if m:
             out[m.group(1)] = 'n/a'
     return out
@@ -26,6 +26,7 @@ rounds = [
     (3, 'seeded3', 'EVAL-round3-first-contact.txt', 'EVAL-round3-on-head.txt'),
     (4, 'seeded4', 'EVAL-round4-first-contact.txt', 'EVAL-round4-on-head.txt'),
     (5, 'seeded5', 'EVAL-round5-first-contact.txt', 'EVAL-round5-on-head.txt'),
+    (6, 'seeded6', 'EVAL-round6-first-contact.txt', 'EVAL-round6-on-head.txt'),
 ]
 rows, summary = [], []
 for rnd, d, first, after in rounds:
@@ -68,6 +69,7 @@ def refac_first(path):
 refac_first1 = refac_first(f'{V}/refactorings/EVAL-first-contact.txt')
 refac_first2 = refac_first(f'{V}/refactorings/EVAL-round2-first-contact.txt')
 refac_first3 = refac_first(f'{V}/refactorings/EVAL-round3-first-contact.txt')
+refac_first4 = refac_first(f'{V}/refactorings/EVAL-round4-first-contact.txt')
 rh = parse_eval(f'{V}/refactorings/EVAL-on-head.txt')
 alarm_head = sorted(k for k, v in rh.items() if v not in ('NONE', 'n/a'))
 refac_head = (f'all {len(rh)} are silent for all 20 properties' if rh and not alarm_head else (f'{len(alarm_head)} of {len(rh)} still alarm: {", ".join(alarm_head)}' if rh else 'not recorded'))
@@ -81,7 +83,7 @@ parts.append(open(f'{V}/design/part1_head.md').read().rstrip() + '\n\n')
 parts.append(cat.rstrip() + '\n\n')
 parts.append(open(f'{V}/design/part2.md').read().rstrip() + '\n\n')
 p4 = open(f'{V}/design/part4_seeds_head.md').read()
-p4 = p4.replace('@SUMMARY@', '\n'.join(summary)).replace('@TABLE@', '\n'.join(rows)).replace('@REFAC_FIRST1@', refac_first1).replace('@REFAC_FIRST2@', refac_first2).replace('@REFAC_FIRST3@', refac_first3).replace('@REFAC_HEAD@', refac_head)
+p4 = p4.replace('@SUMMARY@', '\n'.join(summary)).replace('@TABLE@', '\n'.join(rows)).replace('@REFAC_FIRST1@', refac_first1).replace('@REFAC_FIRST2@', refac_first2).replace('@REFAC_FIRST3@', refac_first3).replace('@REFAC_FIRST4@', refac_first4).replace('@REFAC_HEAD@', refac_head)
 parts.append(p4.rstrip() + '\n\n')
 parts.append(open(f'{V}/design/part3_falsealarms.md').read().rstrip() + '\n')
 open(f'{V}/DESIGN.md', 'w').write(''.join(parts))
